@@ -382,7 +382,8 @@ Section Count.
     CInv busy done s → reach P m0 c →
     (∀ v, v ∈ tracked s busy →
           (N.of_nat (cnt P m0 (proc s) v + occ (done ++ [c]) v) ≤ rc m0 v)%N) →
-    CInv busy (done ++ [c]) (visit_counting s c).
+    CInv busy (done ++ [c]) (visit_counting s c) ∧
+    length (proc (visit_counting s c)) = length (proc s).
   Proof.
     intros HI Hrc Hle.
     destruct (pp_reach _ _ _ Hpre c Hrc) as (Hal & _ & Hndr).
@@ -407,7 +408,7 @@ Section Count.
       assert (Hnt : c ∉ tracked s busy) by (rewrite Htm; tauto).
       destruct (ci_un _ _ _ HI c Hnt) as [_ Hsame].
       destruct (N.eqb_spec (tc (t_m s) c) 16383) as [Heq|_]; [by rewrite Hsame in Heq|].
-      intros Hfr'. eapply fresh_inv; try done.
+      intros Hfr'. split; [|done]. eapply fresh_inv; try done.
       + apply upd1_uhdr. done.
       + done.
       + done.
@@ -415,7 +416,7 @@ Section Count.
       assert (Hin : c ∈ tracked s busy) by (rewrite Htm; congruence).
       specialize (Hbound Hin).
       destruct (N.eqb_spec (tc (t_m s) c) 16383) as [Heq|_]; [lia|].
-      intros Hfr'. apply inc_only_inv; try done.
+      intros Hfr'. split; [|done]. apply inc_only_inv; try done.
       + pose proof (upd1_uhdr c (λ h, default h (inc_tc h)) (t_m s) Hsome) as U.
         unfold inc_tc in U. destruct (N.eqb_spec (tc (t_m s) c) max_rc) as [Heq|_];
           [unfold max_rc in Heq; lia|]. exact U.
@@ -440,10 +441,15 @@ Section Count.
       pose proof (upd1_uhdr c (λ _, set_tc (tc (t_m s) c + 1) (hdr_of (t_m s) c)) (t_m s) Hsome)
         as U. cbn beta in U.
       destruct (N.eqb_spec (rc (t_m s) c) (tc (t_m s) c + 1)) as [Heq1|Hne1]; intros Hfr'.
-      + apply move_inv; try done.
-        unfold proc in Hproc. apply elem_of_app in Hproc as [?|Hcn]; [done|].
-        pose proof (ci_non _ _ _ HI c Hcn). lia.
-      + apply inc_only_inv; try done.
+      + assert (Hcr : c ∈ t_root s).
+        { unfold proc in Hproc. apply elem_of_app in Hproc as [?|Hcn]; [done|].
+          pose proof (ci_non _ _ _ HI c Hcn). lia. }
+        split; [by apply move_inv|]. unfold proc. cbn [t_root t_non].
+        rewrite !app_length. cbn [length].
+        rewrite (remove_id_length c (t_root s)); [lia|done|].
+        pose proof (ci_nodup _ _ _ HI) as Hnd. unfold tracked in Hnd.
+        by apply NoDup_app in Hnd as [? _].
+      + split; [|done]. apply inc_only_inv; try done.
         intros Hcn. pose proof (ci_non _ _ _ HI c Hcn). lia.
     - (* IQ *)
       assert (Hin : c ∈ tracked s busy) by (rewrite Htm; congruence).
@@ -458,7 +464,7 @@ Section Count.
       rewrite Hmk. cbn [mark_eqb andb].
       pose proof (upd1_uhdr c (λ _, set_tc (tc (t_m s) c + 1) (hdr_of (t_m s) c)) (t_m s) Hsome)
         as U. cbn beta in U.
-      intros Hfr'. apply inc_only_inv; try done.
+      intros Hfr'. split; [|done]. apply inc_only_inv; try done.
       + intros Hcn. assert (mk (t_m s) c = IL)
           by (apply (ci_il _ _ _ HI); [done|]; unfold proc; rewrite elem_of_app; tauto).
         congruence.
@@ -561,18 +567,21 @@ Section Count.
 
   Lemma fold_visit_counting_inv p l done s :
     CInv [p] done s → kids P m0 p = done ++ l →
-    CInv [p] (done ++ l) (fold_left visit_counting l s).
+    CInv [p] (done ++ l) (fold_left visit_counting l s) ∧
+    length (proc (fold_left visit_counting l s)) = length (proc s).
   Proof.
     revert done s. induction l as [|c l IH]; intros done s HI Hk.
     - by rewrite (right_id_L [] (++)).
     - cbn [fold_left].
       replace (done ++ c :: l) with ((done ++ [c]) ++ l) by (by rewrite <- (assoc_L (++))).
-      apply IH; [|by rewrite <- (assoc_L (++))].
-      apply visit_counting_inv; [done| |by eapply count_bound].
-      apply (reach_kid _ _ p).
-      + apply (ci_reach _ _ _ HI). unfold tracked. rewrite !elem_of_app, elem_of_list_singleton.
-        tauto.
-      + rewrite Hk. apply elem_of_app. right. left.
+      assert (Hstep : CInv [p] (done ++ [c]) (visit_counting s c) ∧
+                      length (proc (visit_counting s c)) = length (proc s)).
+      { apply visit_counting_inv; [done| |by eapply count_bound].
+        apply (reach_kid _ _ p).
+        + apply (ci_reach _ _ _ HI). unfold tracked.
+          rewrite !elem_of_app, elem_of_list_singleton. tauto.
+        + rewrite Hk. apply elem_of_app. right. left. }
+      destruct Hstep as [H1 H2]. rewrite <- H2. apply IH; [done|by rewrite <- (assoc_L (++))].
   Qed.
 
   (** the end of [process_counting]: [p] goes to one of the two lists *)
@@ -635,5 +644,273 @@ Section Count.
     - intros v Hv. rewrite Hrcall, Htcall.
       destruct Hcase as [(Heq & -> & ->)|(Hne & -> & ->)]; [by apply Hroot|].
       apply elem_of_cons in Hv as [->|Hv]; [done|by apply Hroot].
+  Qed.
+
+  (** what an unwound counting phase leaves behind *)
+  Definition PanicPost (m' : machine) : Prop :=
+    mframe K m0 m' ∧ nobad m' ∧ pc m' `suffix_of` pc m0 ∧
+    pc_size m' = N.of_nat (length (pc m')) ∧
+    (∀ v, alloc m0 v → (mk m' v = NM ∨ mk m' v = PC) ∧ (mk m' v = PC ↔ v ∈ pc m')) ∧
+    (∀ v, v ∈ pc m' → tc m' v = 0%N).
+
+  Lemma set_mark_idem k h : set_mark k (set_mark k h) = set_mark k h.
+  Proof. done. Qed.
+  Lemma reset_tc_idem h : reset_tc (reset_tc h) = reset_tc h.
+  Proof. done. Qed.
+
+  Lemma panic_cleanup s p :
+    CInv [p] [] s →
+    PanicPost (reset_buffered
+                 (unmark_all (t_root s ++ t_non s ++ t_q s) (uhdr p (set_mark NM) (t_m s)))).
+  Proof.
+    intros HI.
+    pose proof HI as [Hfr Hnb Hsuf Hsz Hnd Hre Hil Hiq Hpc Htc Hun Hnon Hroot].
+    set (m2 := uhdr p (set_mark NM) (t_m s)).
+    set (L := t_root s ++ t_non s ++ t_q s).
+    set (m3 := unmark_all L m2).
+    destruct (fold_uhdr_same (set_mark NM) L m2) as (Hpc3 & Hsz3 & Hlog3). fold (unmark_all L m2) in *.
+    fold m3 in Hpc3, Hsz3, Hlog3.
+    unfold reset_buffered.
+    destruct (fold_uhdr_same reset_tc (pc m3) m3) as (Hpc4 & Hsz4 & Hlog4).
+    set (m4 := fold_left _ (pc m3) m3) in *.
+    assert (Hpcs : pc m3 = pc (t_m s)) by (by rewrite Hpc3).
+    assert (Hfr2 : mframe K m0 m2).
+    { eapply mframe_trans; [done|]. apply mframe_uhdr_all, hdr_sim_set_mark. }
+    assert (Hfr3 : mframe K m0 m3) by (eapply mframe_trans; [done|apply unmark_all_frame]).
+    assert (Hfr4 : mframe K m0 m4) by (eapply mframe_trans; [done|apply reset_fold_frame]).
+    assert (Hsome : ∀ m v, mframe K m0 m → alloc m0 v → is_Some (get m v)).
+    { intros m v Hm Hv. apply alloc_get. by apply (mframe_alloc K _ _ v Hm). }
+    assert (Hm2 : ∀ v, alloc m0 v →
+              hdr_of m2 v = if decide (v = p) then set_mark NM (hdr_of (t_m s) v)
+                            else hdr_of (t_m s) v).
+    { intros v Hv. subst m2. destruct (decide (v = p)) as [->|Hne].
+      - apply hdr_of_uhdr_eq. by apply Hsome.
+      - by apply hdr_of_uhdr_ne. }
+    assert (Hm3 : ∀ v, alloc m0 v →
+              hdr_of m3 v = if decide (v ∈ L) then set_mark NM (hdr_of m2 v) else hdr_of m2 v).
+    { intros v Hv. apply hdr_of_fold_uhdr; [done|]. by apply Hsome. }
+    assert (Hm4 : ∀ v, alloc m0 v →
+              hdr_of m4 v = if decide (v ∈ pc m3) then reset_tc (hdr_of m3 v) else hdr_of m3 v).
+    { intros v Hv. apply hdr_of_fold_uhdr; [done|]. by apply Hsome. }
+    assert (Hdisj : ∀ v, v ∈ pc (t_m s) → v ∉ L ∧ v ≠ p).
+    { intros v Hv. unfold tracked in Hnd. rewrite !(assoc_L (++)) in Hnd.
+      apply NoDup_app in Hnd as (Hnd & Hd1 & _). apply NoDup_app in Hnd as (_ & Hd2 & _).
+      split.
+      - intros HL. apply (Hd2 v); [|done]. subst L. by rewrite <- !(assoc_L (++)).
+      - intros ->. apply (Hd1 p); [|by left]. apply elem_of_app. by right. }
+    assert (Hmark4 : ∀ v, alloc m0 v → mk m4 v = mk m3 v).
+    { intros v Hv. rewrite (Hm4 v Hv). by destruct (decide _). }
+    split; [done|]. split; [unfold nobad; rewrite Hlog4, Hlog3; apply Hnb|].
+    split; [by rewrite Hpc4, Hpcs|]. split; [by rewrite Hsz4, Hpc4, Hsz3, Hpcs|].
+    split.
+    - intros v H. split; [|split].
+      + rewrite (Hmark4 v H), (Hm3 v H), (Hm2 v H).
+        destruct (decide (v ∈ L)) as [|n]; [by left|]. destruct (decide (v = p)); [by left|].
+        pose proof (tracked_mark _ _ _ v HI H) as Htm.
+        destruct (mk (t_m s) v) eqn:Hmk; [by left|by right| |].
+        * exfalso. apply n. subst L. apply (Hil v H) in Hmk. unfold proc in Hmk.
+          rewrite !elem_of_app in *. tauto.
+        * exfalso. apply (Hiq v H) in Hmk. rewrite elem_of_app, elem_of_list_singleton in Hmk.
+          destruct Hmk as [Hq| ->]; [|done]. apply n. subst L. rewrite !elem_of_app. tauto.
+      + rewrite (Hmark4 v H), (Hm3 v H), (Hm2 v H), Hpc4, Hpcs.
+        destruct (decide (v ∈ L)); [done|]. destruct (decide (v = p)); [done|].
+        by apply Hpc.
+      + rewrite (Hmark4 v H), (Hm3 v H), (Hm2 v H), Hpc4, Hpcs. intros Hv.
+        destruct (Hdisj v Hv) as [HL Hp]. rewrite decide_False by done.
+        rewrite decide_False by done. by apply Hpc.
+    - intros v. rewrite Hpc4. intros Hv.
+      assert (Hal : alloc m0 v).
+      { apply reach_alloc, Hre. rewrite Hpcs in Hv. unfold tracked. rewrite !elem_of_app. tauto. }
+      rewrite (Hm4 v Hal). by rewrite decide_True by done.
+  Qed.
+
+  Lemma process_counting_inv s p :
+    CInv [p] [] (TState (uhdr p (set_mark IQ) (t_m s)) (t_root s) (t_non s) (t_q s)) →
+    match process_counting K P s p with
+    | (s', false) => CInv [] [] s' ∧ length (proc s') = S (length (proc s))
+    | (s', true) => PanicPost (t_m s')
+    end.
+  Proof.
+    intros HI. unfold process_counting.
+    set (m1' := uhdr p (set_mark IQ) (t_m s)) in *.
+    pose proof (trace_event_same p m1') as (Hh & Hp & Hs & Hl).
+    pose proof (trace_event_frame K p m1') as Hf.
+    destruct (trace_event K p m1') as [m1 boom]. cbn [fst] in *.
+    assert (Hfr1 : mframe K m0 m1) by (eapply mframe_trans; [apply HI|done]).
+    pose proof (CInv_transport _ _ _ m1 HI Hh Hp Hs Hfr1 Hl) as HI1.
+    cbn [t_m t_root t_non t_q] in HI1.
+    destruct boom.
+    - cbn [t_m]. apply (panic_cleanup _ _ HI1).
+    - assert (Hrp : reach P m0 p).
+      { apply (ci_reach _ _ _ HI1). unfold tracked.
+        rewrite !elem_of_app, elem_of_list_singleton. tauto. }
+      assert (Hlm : live_or_map m1 p).
+      { apply (mframe_live_or_map K _ _ p Hfr1). by apply (pp_reach _ _ _ Hpre). }
+      rewrite (traced_children_ok _ _ Hlm), (mframe_kids K P _ _ p Hfr1).
+      destruct (fold_visit_counting_inv p (kids P m0 p) [] _ HI1 eq_refl) as [HI2 Hlen].
+      set (s2 := fold_left visit_counting _ _) in *. cbn [app] in HI2.
+      unfold proc at 2 in Hlen. cbn [t_root t_non] in Hlen. fold (proc s) in Hlen.
+      destruct (N.eqb_spec (rc (t_m s2) p) (tc (t_m s2) p)) as [Heq|Hne].
+      + split; [apply finish_inv; [done|]; left; done|].
+        unfold proc in *. cbn [t_root t_non]. rewrite app_length in *. cbn [length]. lia.
+      + split; [apply finish_inv; [done|]; right; done|].
+        unfold proc in *. cbn [t_root t_non]. rewrite app_length in *. cbn [length]. lia.
+  Qed.
+
+  Lemma CInv_init : CInv [] [] (TState m0 [] [] []).
+  Proof.
+    destruct Hpre as [Hnd Hpm Hmk Hmp Hsz Htc Hcnt Hmax Hre].
+    split; unfold tracked, proc, nobad; cbn [t_m t_root t_non t_q app];
+      rewrite ?(right_id_L [] (++)); try done.
+    - apply mframe_refl.
+    - intros v Hv. by apply reach_pc.
+    - intros v Hv. rewrite elem_of_nil. destruct (Hmk v Hv) as [-> | ->]; split; done.
+    - intros v Hv. rewrite elem_of_nil. destruct (Hmk v Hv) as [-> | ->]; split; done.
+    - intros v Hv. split; [by apply Hmp|by apply Hpm].
+    - intros v Hv. Show. rewrite Htc by done. by rewrite cnt_nil, occ_nil.
+  Qed.
+
+  Lemma pop_inv s p m' q' :
+    CInv [] [] s →
+    (∀ v, hdr_of m' v = if decide (v = p) then set_mark IQ (hdr_of (t_m s) v)
+                        else hdr_of (t_m s) v) →
+    log m' = log (t_m s) → mframe K m0 m' →
+    (t_q s = p :: q' ∧ pc m' = pc (t_m s) ∧ pc_size m' = pc_size (t_m s) ∨
+     t_q s = q' ∧ pc (t_m s) = p :: pc m' ∧ pc_size m' = (pc_size (t_m s) - 1)%N) →
+    CInv [p] [] (TState m' (t_root s) (t_non s) q').
+  Proof.
+    intros [Hfr Hnb Hsuf Hsz Hnd Hre Hil Hiq Hpc Htc Hun Hnon Hroot] Hh Hlog Hfr' Hcase.
+    assert (Hperm : t_root s ++ t_non s ++ q' ++ pc m' ++ [p] ≡ₚ tracked s []).
+    { unfold tracked. rewrite (right_id_L [] (++)).
+      destruct Hcase as [(-> & -> & _)|(-> & -> & _)].
+      - rewrite !(assoc_L (++)). rewrite <- Permutation_cons_append.
+        rewrite <- !(assoc_L (++)). by rewrite <- !Permutation_middle.
+      - rewrite !(assoc_L (++)). rewrite <- Permutation_cons_append.
+        rewrite <- !(assoc_L (++)). by rewrite <- !Permutation_middle. }
+    assert (Hpt : p ∈ tracked s []).
+    { rewrite <- Hperm. rewrite !elem_of_app, elem_of_list_singleton. tauto. }
+    assert (Hnd' : NoDup (t_root s ++ t_non s ++ q' ++ pc m' ++ [p])) by (by rewrite Hperm).
+    assert (Hpn : p ∉ t_root s ++ t_non s ++ q' ++ pc m').
+    { rewrite !(assoc_L (++)) in Hnd'. apply NoDup_app in Hnd' as (_ & Hd & _).
+      intros Hin. apply (Hd p); [|by left]. by rewrite <- !(assoc_L (++)). }
+    assert (Hmk : ∀ v, v ≠ p → mk m' v = mk (t_m s) v).
+    { intros v Hv. by rewrite Hh, decide_False. }
+    assert (Htcall : ∀ v, tc m' v = tc (t_m s) v).
+    { intros v. rewrite Hh. by destruct (decide _). }
+    assert (Hrcall : ∀ v, rc m' v = rc (t_m s) v).
+    { intros v. rewrite Hh. by destruct (decide _). }
+    assert (Hmkp : mk m' p = IQ) by (by rewrite Hh, decide_True).
+    split; unfold tracked at 1, proc, nobad; cbn [t_m t_root t_non t_q]; try done.
+    - by rewrite Hlog.
+    - destruct Hcase as [(_ & -> & _)|(_ & Hp & _)]; [done|].
+      etrans; [|done]. rewrite Hp. by apply suffix_cons_r.
+    - destruct Hcase as [(_ & -> & ->)|(_ & Hp & ->)]; [done|].
+      rewrite Hsz, Hp. cbn [length]. lia.
+    - intros v. rewrite Hperm. apply Hre.
+    - intros v Hv. destruct (decide (v = p)) as [->|Hne].
+      + rewrite Hmkp. split; [done|]. intros Hin. exfalso. apply Hpn.
+        unfold proc in Hin. rewrite !elem_of_app in *. tauto.
+      + rewrite Hmk by done. by apply Hil.
+    - intros v Hv. destruct (decide (v = p)) as [->|Hne].
+      + rewrite Hmkp. split; [|done]. intros _. rewrite elem_of_app, elem_of_list_singleton. tauto.
+      + rewrite Hmk by done. rewrite (Hiq v Hv), (right_id_L [] (++)).
+        rewrite elem_of_app, elem_of_list_singleton.
+        destruct Hcase as [(-> & _)|(-> & _)]; [rewrite elem_of_cons|]; tauto.
+    - intros v Hv. destruct (decide (v = p)) as [->|Hne].
+      + rewrite Hmkp. split; [done|]. intros Hin. exfalso. apply Hpn.
+        rewrite !elem_of_app. tauto.
+      + rewrite Hmk by done. rewrite (Hpc v Hv).
+        destruct Hcase as [(_ & -> & _)|(_ & -> & _)]; [|rewrite elem_of_cons]; tauto.
+    - intros v. rewrite Hperm. intros Hv. rewrite Htcall. by apply Htc.
+    - intros v. rewrite Hperm. intros Hv. destruct (Hun v Hv) as [Hz Hs]. split; [done|].
+      assert (v ≠ p) by (intros ->; done). rewrite Hh, decide_False by done. done.
+    - intros v Hv. rewrite Hrcall, Htcall. by apply Hnon.
+    - intros v Hv. rewrite Hrcall, Htcall. by apply Hroot.
+  Qed.
+
+  Lemma nodup_bound (l : list nat) n :
+    NoDup l → (∀ x, x ∈ l → (x < n)%nat) → (length l ≤ n)%nat.
+  Proof.
+    intros Hnd Hlt. assert (Hsub : l ⊆+ seq 0 n).
+    { apply NoDup_submseteq; [done|]. intros x Hx. apply elem_of_seq. specialize (Hlt x Hx). lia. }
+    apply submseteq_length in Hsub. by rewrite seq_length in Hsub.
+  Qed.
+
+  Lemma proc_room s p :
+    CInv [p] [] s → (length (proc s) < length (heap m0))%nat.
+  Proof.
+    intros HI. pose proof (tracked_busy_nodup s p (ci_nodup _ _ _ HI)) as Hnd.
+    apply (nodup_bound _ (length (heap m0))) in Hnd; [cbn [length] in Hnd; lia|].
+    intros q Hq. apply alloc_lt, reach_alloc, (ci_reach _ _ _ HI). unfold tracked, proc in *.
+    rewrite elem_of_cons, !elem_of_app in Hq. rewrite !elem_of_app, elem_of_list_singleton.
+    tauto.
+  Qed.
+
+  Lemma is_Some_get_uhdr o f m v : is_Some (get (uhdr o f m) v) ↔ is_Some (get m v).
+  Proof.
+    rewrite get_uhdr. destruct (decide (v = o)); [|done]. by rewrite fmap_is_Some.
+  Qed.
+
+  Lemma counting_inv fuel s :
+    CInv [] [] s → (length (heap m0) - length (proc s) < fuel)%nat →
+    ∃ s' b, counting K P fuel s = Some (s', b) ∧
+      if (b : bool) then PanicPost (t_m s')
+      else CInv [] [] s' ∧ pc (t_m s') = [] ∧ t_q s' = [].
+  Proof.
+    revert s. induction fuel as [|f IH]; intros s HI Hfuel; [lia|]. cbn [counting].
+    assert (Hsome : ∀ v, v ∈ tracked s [] → is_Some (get (t_m s) v)).
+    { intros v Hv. apply alloc_get. apply (mframe_alloc K _ _ v (ci_frame _ _ _ HI)).
+      apply reach_alloc, (ci_reach _ _ _ HI), Hv. }
+    destruct (pc (t_m s)) as [|p rest] eqn:Hpc.
+    - destruct (t_q s) as [|p q'] eqn:Hq.
+      + exists s, false. split; [done|]. done.
+      + set (m1 := uhdr p (set_mark NM) (t_m s)).
+        assert (Hps : is_Some (get (t_m s) p)).
+        { apply Hsome. unfold tracked. rewrite Hq, !elem_of_app, elem_of_cons. tauto. }
+        assert (HI1 : CInv [p] [] (TState (uhdr p (set_mark IQ) m1) (t_root s) (t_non s) q')).
+        { apply pop_inv; [done| |done| |].
+          - intros v. subst m1. destruct (decide (v = p)) as [->|Hne].
+            + rewrite !hdr_of_uhdr_eq; [done|done|]. by apply is_Some_get_uhdr.
+            + by rewrite !hdr_of_uhdr_ne.
+          - eapply mframe_trans; [apply HI|]. eapply mframe_trans;
+              apply mframe_uhdr_all, hdr_sim_set_mark.
+          - left. done. }
+        pose proof (process_counting_inv (TState m1 (t_root s) (t_non s) q') p HI1) as Hpc1.
+        pose proof (proc_room _ _ HI1) as Hroom.
+        destruct (process_counting K P _ p) as [s1 boom]. destruct boom.
+        * exists s1, true. done.
+        * destruct Hpc1 as [HI2 Hlen]. unfold proc in *. cbn [t_root t_non] in *.
+          apply IH; [done|]. unfold proc. lia.
+    - set (m1 := dec_size p (uhdr p (set_mark NM) (t_m s) <| pc := rest |>)).
+      assert (Hps : is_Some (get (t_m s) p)).
+      { apply Hsome. unfold tracked. rewrite Hpc, !elem_of_app, elem_of_cons. tauto. }
+      assert (Hsz : pc_size (t_m s) = N.of_nat (S (length rest))).
+      { rewrite (ci_size _ _ _ HI), Hpc. done. }
+      assert (Hm1 : m1 = uhdr p (set_mark NM) (t_m s) <| pc := rest |>
+                                <| pc_size ::= λ n, (n - 1)%N |>).
+      { subst m1. unfold dec_size. cbn [pc_size]. rewrite pc_size_uhdr.
+        destruct (N.eqb_spec (pc_size (t_m s)) 0) as [Hz|_]; [lia|done]. }
+      assert (HI1 : CInv [p] [] (TState (uhdr p (set_mark IQ) m1) (t_root s) (t_non s) (t_q s))).
+      { apply pop_inv; [done| |by rewrite Hm1| |].
+        - intros v. rewrite Hm1. destruct (decide (v = p)) as [->|Hne].
+          + rewrite hdr_of_uhdr_eq; [|by apply (is_Some_get_uhdr p (set_mark NM) (t_m s))].
+            change (hdr_of (_ <| pc_size ::= _ |>) p)
+              with (hdr_of (uhdr p (set_mark NM) (t_m s)) p).
+            by rewrite hdr_of_uhdr_eq.
+          + rewrite hdr_of_uhdr_ne by done.
+            change (hdr_of (_ <| pc_size ::= _ |>) v)
+              with (hdr_of (uhdr p (set_mark NM) (t_m s)) v).
+            by rewrite hdr_of_uhdr_ne.
+        - eapply mframe_trans; [apply HI|]. eapply mframe_trans;
+            [|apply mframe_uhdr_all, hdr_sim_set_mark]. subst m1.
+          eapply mframe_trans; [|apply mframe_dec_size].
+          eapply mframe_trans; [|apply mframe_set_pc]. apply mframe_uhdr_all, hdr_sim_set_mark.
+        - right. rewrite Hm1. done. }
+      pose proof (process_counting_inv (TState m1 (t_root s) (t_non s) (t_q s)) p HI1) as Hpc1.
+      pose proof (proc_room _ _ HI1) as Hroom.
+      destruct (process_counting K P _ p) as [s1 boom]. destruct boom.
+      + exists s1, true. done.
+      + destruct Hpc1 as [HI2 Hlen]. unfold proc in *. cbn [t_root t_non] in *.
+        apply IH; [done|]. unfold proc. lia.
   Qed.
 End Count.
